@@ -23,8 +23,13 @@ import z3
 from .wblib import *
 from litex.soc.integration.soc import SoCRegion
 from vf.core import Case
+from .C07_sram_burst import b4_next_adr, c_sram_burst          # B4 next-beat address (spec function) and the SRAM burst contract (assume-guarantee link below)
 
 CTI_CLASSIC, CTI_CONSTANT, CTI_INCR, CTI_END = 0b000, 0b001, 0b010, 0b111
+# the strict reading "slave-side cyc is not lowered inside an open burst while the master still asserts cyc" is violated by
+# DownConverter in master wait states (tools/replay_wb_down_burst_err.py 2).  True: expressed as finding.* (expected to fail);
+# False: the same behaviour is only stated as an observation (ens.obs.*), should the maintainer judge it harmless.
+WAIT_STATE_IS_FINDING = True
 
 def lane_of(word, l, nlanes):
     if nlanes == 1: return word
@@ -95,10 +100,13 @@ def c_down_burst(dw_from, dw_to, aw=6, via_converter=False):
     # ---- slave-side burst context -----------------------------------------------------------------------------------------
     scti = V(s.cti); sadr = V(s.adr)
     scont = z3.And(sdone, scti == K(CTI_INCR, 3))
-    sopen = h.ghost("sopen", 1); sea = h.ghost("sea", aw + lb); sewe = h.ghost("sewe", 1)
-    sopen_next = z3.If(scont, K(1, 1), z3.If(z3.Or(sdone, z3.Not(b(V(s.cyc)))), K(0, 1), sopen))
-    h.ghost_next(sopen, sopen_next); h.ghost_next(sea, z3.If(scont, sadr + 1, sea)); h.ghost_next(sewe, z3.If(scont, V(s.we), sewe))
+    # (same protocol ghost as in C07_sram_burst: open / expected address by the B4 spec function b4_next_adr / direction / type / LSBs of the first beat)
+    sopen = h.ghost("sopen", 1); sea = h.ghost("sea", aw + lb); sewe = h.ghost("sewe", 1); sebte = h.ghost("sebte", 2); soff0 = h.ghost("soff0", 4)
     SO = b(sopen)
+    sopen_next = z3.If(scont, K(1, 1), z3.If(z3.Or(sdone, z3.Not(b(V(s.cyc)))), K(0, 1), sopen))
+    cur_off0 = z3.If(SO, soff0, z3.Extract(3, 0, sadr))
+    h.ghost_next(sopen, sopen_next); h.ghost_next(sea, z3.If(scont, b4_next_adr(sadr, V(s.bte), cur_off0), sea)); h.ghost_next(sewe, z3.If(scont, V(s.we), sewe))
+    h.ghost_next(sebte, z3.If(scont, V(s.bte), sebte)); h.ghost_next(soff0, z3.If(scont, cur_off0, soff0))
     # ---- tracked byte -----------------------------------------------------------------------------------------------------
     gw = h.const("gw", aw); gl = h.const("gl", LWm); iv = h.const("iv", 8)
     gsub = z3.Extract(LWm - 1, LWs, gl)                                  # sub-word of the tracked byte (lb bits)
@@ -125,6 +133,9 @@ def c_down_burst(dw_from, dw_to, aw=6, via_converter=False):
     h.ghost_next(erred, z3.If(idle_or_term, K(0, 1), z3.If(z3.And(sreq, serr), K(1, 1), erred)))
     # ---- helper invariants (from the code) --------------------------------------------------------------------------------
     cnt = L(d, "count"); dat_r = L(d, "dat_r")
+    # (fall-back by shape when a local has been renamed: the sub-word counter is the only lb-bit register, the read shift register the only dw_from-bit one)
+    if cnt is None or cnt not in h.ts.state: cnt = ([x for x in h.ts.state if x.nbits == lb] + [None])[0]
+    if dat_r is None or dat_r not in h.ts.state: dat_r = ([x for x in h.ts.state if x.nbits == dw_from] + [None])[0]
     if cnt is not None and cnt in h.ts.var: h.hint("count=k", zx(V(cnt), KW) == k)
     h.hint("k<r", ult(k, r)); h.hint("idle->k0", z3.Implies(z3.Not(P), k == K(0, KW)))
     h_burst = z3.And(held.bte == K(0, 2), z3.Or(held.cti == K(CTI_INCR, 3), held.cti == K(CTI_END, 3)))
@@ -143,6 +154,7 @@ def c_down_burst(dw_from, dw_to, aw=6, via_converter=False):
     h.hint("bk", bk == z3.If(z3.And(wr_pend_g, z3.UGT(k, zx(gsub, KW))), lane_of(held.dat_w, gl, NLm), gv))
     # slave burst context: open only inside a burst-mode master beat (next sub-beat) or between two beats of the master's open burst
     h.hint("sopen.mid", z3.Implies(z3.And(SO, P, k != K(0, KW)), z3.And(h_burst, sea == z3.Concat(held.adr, z3.Extract(lb - 1, 0, k)), sewe == held.we)))
+    h.hint("sopen.bte", z3.Implies(SO, sebte == K(0, 2)))
     h.hint("sopen.gap", z3.Implies(z3.And(SO, z3.Or(z3.Not(P), k == K(0, KW))), z3.And(MO, mebte == K(0, 2), sea == z3.Concat(mea, K(0, lb)), sewe == mewe)))
     h.hint("nterm<=k", z3.Implies(z3.Not(b(erred)), nterm == zx(k, NW)))
     h.hint("idle->nterm0", z3.Implies(z3.Not(P), z3.And(nterm == K(0, NW), erred == K(0, 1))))
@@ -167,15 +179,18 @@ def c_down_burst(dw_from, dw_to, aw=6, via_converter=False):
     # a presented slave beat is held (request, address, data, select, direction, tag) until the slave terminates it
     s_tok = cat(sadr, V(s.dat_w), V(s.sel), V(s.we), scti, V(s.bte))
     h.ensure_seq("ens.s.hold", lambda at: z3.Implies(z3.And(at(sreq, 0), z3.Not(at(z3.Or(sack, serr), 0))), z3.And(at(sreq, 1), at(s_tok, 1) == at(s_tok, 0))))
-    h.ensure("ens.s.burst-seq", z3.Implies(z3.And(SO, sreq, m_follows), z3.And(sadr == sea, V(s.we) == sewe, z3.Or(scti == K(CTI_INCR, 3), scti == K(CTI_END, 3)))))
+    h.ensure("ens.s.burst-seq", z3.Implies(z3.And(SO, sreq, m_follows), z3.And(sadr == sea, V(s.we) == sewe, V(s.bte) == sebte, z3.Or(scti == K(CTI_INCR, 3), scti == K(CTI_END, 3)))))
     # the slave-side burst is closed (111 tag transferred) together with the master's: after a transferred master beat that does
     # not continue a burst no slave-side burst is open; an open slave-side burst exists only inside the master's open burst
     h.ensure("ens.s.closed-with-master", z3.Implies(z3.And(mxfer, z3.Not(incr)), sopen_next == K(0, 1)))
     h.ensure("ens.s.open-only-in-master-burst", z3.Implies(SO, z3.Or(MO, z3.And(P, h_burst))))
     h.ensure("ens.s.abandon-only-without-request", z3.Implies(z3.And(SO, z3.Not(b(V(s.cyc))), m_follows), z3.Not(rq)))
-    h.finding("finding.down.burst-dropped-in-wait-state", z3.Implies(z3.And(SO, z3.Not(b(V(s.cyc))), m_follows), z3.Not(b(V(m.cyc)))),
-              "wishbone.DownConverter gates slave.cyc with master.stb: a master wait state (stb low, cyc high) between two beats of an incrementing burst lowers cyc on the slave side "
-              "while the last transferred slave beat was tagged cti=010 (burst left open, no 111 beat); the following beat starts a new burst")
+    if WAIT_STATE_IS_FINDING:
+        h.finding("finding.down.burst-dropped-in-wait-state", z3.Implies(z3.And(SO, z3.Not(b(V(s.cyc))), m_follows), z3.Not(b(V(m.cyc)))),
+                  "wishbone.DownConverter gates slave.cyc with master.stb: a master wait state (stb low, cyc high) between two beats of an incrementing burst lowers cyc on the slave side "
+                  "while the last transferred slave beat was tagged cti=010 (burst left open, no 111 beat); the following beat starts a new burst")
+    else:
+        h.ensure("ens.obs.burst-dropped-in-wait-state", z3.Implies(z3.And(z3.Not(rq), b(V(m.cyc))), z3.Not(b(V(s.cyc)))))
     # (3) flat byte memory
     h.ensure("ens.read", z3.Implies(z3.And(mxfer, z3.Not(mwe), adr == gw, m_sel_g), lane_of(V(m.dat_r), gl, NLm) == gv))
     h.ensure("ens.write.done", z3.Implies(z3.Or(mxfer, z3.Not(rq)), bk_next == gv_next))          # whenever no master cycle is in flight the slave byte is the specified value
@@ -199,7 +214,180 @@ def c_down_burst(dw_from, dw_to, aw=6, via_converter=False):
     h.bmc_depth = 3 * r + 4; h.cosim_cycles = 16
     return h
 
+# ---------------------------------------------------------------------------------------------------------------------------
+# Combinational adapters (UpConverter, Converter(up), Remapper): the slave's termination (ack OR err) is the master's, in the same
+# cycle, one for one; the master's request is presented to the slave exactly while the master presents it.
+def term_passthrough(h, m, s, tags=True):
+    V = h.v
+    rq = req(h, m); sreq = req(h, s)
+    mack = b(V(m.ack)); merr = b(V(m.err)); sack = b(V(s.ack)); serr = b(V(s.err))
+    p_minc = h.prev("m_inc", bv1(z3.And(rq, V(m.cti) == K(CTI_INCR, 3))))
+    h.ensure("ens.req.passthrough", z3.And(V(s.cyc) == V(m.cyc), V(s.stb) == V(m.stb), V(s.we) == V(m.we), V(s.cti) == V(m.cti), V(s.bte) == V(m.bte)))
+    h.ensure("ens.term.same-cycle", z3.And(mack == sack, merr == serr))                        # ack stays ack, err stays err
+    h.ensure("ens.term.one-to-one", z3.And(rq, z3.Or(mack, merr)) == z3.And(sreq, z3.Or(sack, serr)))   # the master's cycle is terminated exactly when the slave terminates the cycle presented to it
+    h.ensure("ens.term.not-both", z3.Not(z3.And(mack, merr)))
+    h.ensure("ens.term.only-if-req", z3.And(z3.Implies(merr, rq), z3.Implies(mack, z3.Or(rq, b(p_minc)))))
+    h.respond("resp.term", z3.And(rq, z3.Or(sack, serr)), z3.Or(mack, merr), 1)                 # never hangs: terminated in the very cycle the slave terminates
+    h.cover("cover.err-forwarded", z3.And(rq, merr, z3.Not(mack)), depth=2)
+    h.cover("cover.ack-forwarded", z3.And(rq, mack, z3.Not(merr)), depth=2)
+
+def c_up_mem(dw_from, dw_to, aw=6, via_converter=False):
+    r = dw_to // dw_from; lb = log2(r)
+    NLm = dw_from // 8; NLs = dw_to // 8; LWm = log2(NLm); LWs = log2(NLs)
+    m = wishbone.Interface(data_width=dw_from, adr_width=aw, bursting=True); s = wishbone.Interface(data_width=dw_to, adr_width=aw - lb, bursting=True)
+    d = mk(wishbone.Converter if via_converter else wishbone.UpConverter, m, s)
+    h = HwCheck(f"wishbone.{'Converter' if via_converter else 'UpConverter'}(mem+err,{dw_from}->{dw_to})", d, m_inputs(m) + s_inputs(s))
+    V = h.v
+    master_holds(h, m); slave_b4(h, s)
+    rq = req(h, m); sreq = req(h, s); mack = b(V(m.ack)); sack = b(V(s.ack)); mwe = b(V(m.we)); adr = V(m.adr)
+    gw = h.const("gw", aw); gl = h.const("gl", LWm) if LWm else None; iv = h.const("iv", 8)
+    gsw = z3.Extract(aw - 1, lb, gw)                                            # slave word that holds the tracked byte
+    slane = z3.Concat(z3.Extract(lb - 1, 0, gw), gl) if LWm else z3.Extract(lb - 1, 0, gw)   # its lane there: (master word offset) * NLm + lane
+    gv = h.ghost("gv", 8, iv); bk = h.ghost("bk", 8, iv)
+    m_sel_g = selbit(V(m.sel), gl, NLm)
+    mxfer = z3.And(rq, mack); sdone = z3.And(sreq, sack)
+    gv_next = z3.If(z3.And(mxfer, mwe, adr == gw, m_sel_g), lane_of(V(m.dat_w), gl, NLm), gv)
+    h.ghost_next(gv, gv_next)
+    at_bk = V(s.adr) == gsw
+    bk_next = z3.If(z3.And(sdone, b(V(s.we)), at_bk, selbit(V(s.sel), slane, NLs)), lane_of(V(s.dat_w), slane, NLs), bk)
+    h.ghost_next(bk, bk_next)
+    h.assume(z3.Implies(z3.And(sdone, z3.Not(b(V(s.we))), at_bk, selbit(V(s.sel), slane, NLs)), lane_of(V(s.dat_r), slane, NLs) == bk),
+             "abstract slave byte memory: an acknowledged read beat that selects the tracked byte returns the value of the last acknowledged write beat that selected it (ghost bk, arbitrary initial content); "
+             "other bytes, wait states and err answers unconstrained")
+    h.hint("bk=gv", bk == gv)
+    h.ensure("ens.read", z3.Implies(z3.And(mxfer, z3.Not(mwe), adr == gw, m_sel_g), lane_of(V(m.dat_r), gl, NLm) == gv))
+    h.ensure("ens.write.done", bk_next == gv_next)                                # the slave byte is the specified value after every cycle (an err-terminated write changes neither)
+    h.ensure("ens.write.only-selected", z3.Implies(bk_next != bk, z3.And(mxfer, mwe, adr == gw, m_sel_g, bk_next == lane_of(V(m.dat_w), gl, NLm))))
+    # write strobes only on the addressed lanes: the number of selected slave lanes equals the number of selected master lanes
+    pop = lambda x: sum([zx(z3.Extract(i, i, x), 8) for i in range(x.size())], K(0, 8))
+    h.ensure("ens.sel-count", pop(V(s.sel)) == pop(V(m.sel)))
+    term_passthrough(h, m, s)
+    h.cover("cover.read-back", z3.And(mxfer, z3.Not(mwe), adr == gw, m_sel_g, gv != iv), depth=3)
+    h.cover("cover.err-write-ignored", z3.And(rq, mwe, adr == gw, m_sel_g, b(V(s.err)), lane_of(V(m.dat_w), gl, NLm) != gv), depth=2)
+    h.functions = ["litex.soc.interconnect.wishbone.UpConverter.__init__"] + (["litex.soc.interconnect.wishbone.Converter.__init__"] if via_converter else [])
+    h.cosim_cycles = 12
+    return h
+
+def c_remapper_err(kind):
+    m = wishbone.Interface(data_width=32, adr_width=30, bursting=True); s = wishbone.Interface(data_width=32, adr_width=30, bursting=True)
+    if kind == "origin":
+        origin, size, src, dst = 0x1000_0000, 0x1_0000, [], []
+    else:
+        origin, size = 0x8000_0000, 0x1000_0000
+        src = [SoCRegion(origin=0x8000_1000, size=0x1000)]; dst = [SoCRegion(origin=0x0000_0000, size=0x1000)]
+    d = mk(wishbone.Remapper, m, s, origin, size, src, dst)
+    h = HwCheck(f"wishbone.Remapper(err,{kind})", d, m_inputs(m) + s_inputs(s))
+    master_holds(h, m); slave_b4(h, s)
+    term_passthrough(h, m, s)
+    h.ensure("ens.data.passthrough", z3.And(h.v(s.dat_w) == h.v(m.dat_w), h.v(s.sel) == h.v(m.sel), h.v(m.dat_r) == h.v(s.dat_r)))
+    h.functions = ["litex.soc.interconnect.wishbone.Remapper.__init__"]
+    h.cosim_cycles = 12
+    return h
+
+# ---------------------------------------------------------------------------------------------------------------------------
+# Read-only SRAM built from a Memory object that carries `bus_read_only` (the way SoC.add_rom-style memories are handed over),
+# possibly narrower than the bus: init contents visible (zero-extended), writes ignored but terminated exactly once.
+def c_sram_ro_mem(depth, mw, dw, init, explicit=False):
+    bus = wishbone.Interface(data_width=dw, adr_width=30, bursting=False)
+    mem = Memory(mw, depth, init=init)
+    if not explicit: mem.bus_read_only = True
+    d = mk(wishbone.SRAM, mem, bus=bus, **(dict(read_only=True) if explicit else {}))
+    h = HwCheck(f"wishbone.SRAM(Memory({mw}x{depth}),bus={dw},{'read_only=True' if explicit else 'mem.bus_read_only'})", d, m_inputs(bus))
+    V = h.v
+    AW = (depth - 1).bit_length(); NL = dw // 8; LW = log2(NL)
+    gw = h.const("gw", AW); gl = h.const("gl", LW)
+    cells = h.ts.mems[d.mem]
+    def memrd(a):
+        r = V(cells[depth - 1])
+        for j in reversed(range(depth - 1)): r = z3.If(a == K(j, AW), V(cells[j]), r)
+        return r
+    iv = K(0, 8)                                                                   # specified content: the init image, zero above the memory's width
+    for w_ in range(depth):
+        for l_ in range(mw // 8):
+            val = ((init[w_] if w_ < len(init) else 0) >> (8 * l_)) & 0xff
+            iv = z3.If(z3.And(gw == K(w_, AW), gl == K(l_, LW)), K(val, 8), iv)
+    p_pend = master_holds(h, bus); held = h.held[""]
+    rq = req(h, bus); ack = b(V(bus.ack)); we = b(V(bus.we))
+    at_g = z3.Extract(AW - 1, 0, V(bus.adr)) == gw
+    word_g = zx(memrd(gw), dw) if mw < dw else memrd(gw)
+    h.hint("mem=init", lane_of(word_g, gl, NL) == iv)
+    h.hint("ack->pend", z3.Implies(ack, b(p_pend)))
+    port = L(d, "port")
+    p_adr = z3.Extract(AW - 1, 0, held.adr)
+    if port is not None and port.dat_r in h.ts.state:                              # READ_FIRST port: registered read data
+        h.hint("datreg", z3.Implies(z3.And(ack, p_adr == gw), lane_of(zx(V(port.dat_r), dw) if mw < dw else V(port.dat_r), gl, NL) == iv))
+    for s_ in h.ts.state:
+        if s_.nbits == AW and s_ not in h.ts.orig_signals and s_ not in cells: h.hint(f"adrreg:{s_.duid}", V(s_) == p_adr)
+    h.pre_results = [res("struct.no-write-port", "ensures", PROVED if not any(c in h.ts.state for c in cells) else NOINPUT, 0.0, "structural",
+                         info="no memory cell is a register of the extracted transition system (the read-only SRAM has no write port)")]
+    h.ensure("ens.read", z3.Implies(z3.And(ack, rq, z3.Not(we), at_g), lane_of(V(bus.dat_r), gl, NL) == iv))      # init contents visible, whatever was "written" before
+    h.ensure("ens.ro", h.primed(memrd(gw)) == memrd(gw))                                                          # writes are ignored
+    h.ensure("ens.ack-only-if-req", z3.Implies(ack, rq))
+    h.ensure("ens.ack1", z3.Implies(ack, z3.Not(b(h.n(bus.ack)))))
+    h.ensure("ens.err-never", z3.Not(b(V(bus.err))))
+    h.respond("resp.write-terminated", rq, ack, 2, start=z3.And(rq, we))                                          # ... but still terminated
+    h.respond("resp.ack", rq, ack, 2)
+    h.cover("cover.write-acked", z3.And(ack, rq, we, at_g, selbit(V(bus.sel), gl, NL), lane_of(V(bus.dat_w), gl, NL) != iv), depth=3)
+    h.cover("cover.read-init", z3.And(ack, rq, z3.Not(we), at_g, iv != K(0, 8)), depth=3)
+    h.functions = ["litex.soc.interconnect.wishbone.SRAM.__init__"]
+    h.cosim_cycles = 12
+    return h
+
+# ---------------------------------------------------------------------------------------------------------------------------
+# Assume-guarantee link DownConverter -> wishbone.SRAM(bursting=True) (LiteX's own registered-feedback burst slave).
+# The SRAM burst contract (C07_sram_burst.c_sram_burst: real SRAM, its hints, its master environment A.hold + A.burst) is
+# instantiated at the slave-side geometry and extended by the clauses that ARE the slave environment assumed in c_down_burst:
+#   G1 err is never raised, ack only for a presented beat or in the cycle after a presented beat tagged 010        (= slave_b4)
+#   G2 an acknowledged read beat that selects the tracked byte returns the value of the last ACKNOWLEDGED write beat that
+#      selected it (ghost bk, updated at ack as in c_down_burst; the SRAM contract's own ghost is updated at the request)  (= abstract memory)
+# In the other direction c_down_burst proves A.hold (= ens.s.hold) and A.burst (= ens.s.burst-seq, same ghost, same b4_next_adr)
+# and that only linear bursts are emitted (ens.s.bte-linear), which is assumed here.
+def c_link_sram(depth, dw):
+    h = c_sram_burst(depth, dw, aw=8, findings=())
+    d = h.dut; bus = d.bus; V = h.v
+    h.name = f"AG-link wishbone.SRAM(burst,{depth}x{dw}) as slave of DownConverter"
+    NL = dw // 8; LW = max(1, log2(NL)); AW = (depth - 1).bit_length()
+    h.assume(V(bus.bte) == K(0, 2), "AG link: only linear bursts are presented (guaranteed by DownConverter: ens.s.bte-linear)")
+    held = h.held[""]; pend = b(held.pend)
+    G = lambda n: h.ghosts[n][0]
+    gw = h.consts_decl["gw"]; gl = h.consts_decl["gl"]; gv = G("gv")
+    rq = req(h, bus); ack = b(V(bus.ack)); we = b(V(bus.we)); xfer = z3.And(rq, ack)
+    is_open = b(G("open")); beat_adr = z3.If(is_open, G("ea"), V(bus.adr))
+    at_gs = z3.Extract(AW - 1, 0, beat_adr) == gw
+    sel_g = selbit(V(bus.sel), gl, NL) if NL > 1 else b(V(bus.sel))
+    lane = (lambda w: lane_of(w, gl, NL)) if NL > 1 else (lambda w: w)
+    bk = h.ghost("bk", 8, h._ginit(h.ghosts["gv"]))
+    h.ghost_next(bk, z3.If(z3.And(xfer, we, at_gs, sel_g), lane(V(bus.dat_w)), bk))
+    hsel_g = selbit(held.sel, gl, NL) if NL > 1 else b(held.sel)
+    hbeat = z3.If(is_open, G("ea"), held.adr)
+    wr_pend_g = z3.And(pend, b(held.we), z3.Extract(AW - 1, 0, hbeat) == gw, hsel_g)
+    h.hint("link.bk", z3.If(wr_pend_g, gv == lane(held.dat_w), bk == gv))
+    h.hint("link.skew0", G("skew") == K(0, 1)); h.hint("link.tainted0", G("tainted") == K(0, 1)); h.hint("link.ebte0", z3.Implies(is_open, G("ebte") == K(0, 2)))
+    p_inc = G("prev_rqinc")
+    h.ensures.clear(); h.responds.clear(); h.findings.clear(); keep = {k_: v for k_, v in h.covers.items() if k_ in ("cover.end-beat", "cover.resume-after-wait")}; h.covers.clear(); h.covers.update(keep)
+    h.ensure("ens.G1.err-never", z3.Not(b(V(bus.err))))
+    h.ensure("ens.G1.ack-only-for-beat-or-anticipated", z3.Implies(ack, z3.Or(rq, b(p_inc))))
+    h.ensure("ens.G2.read-returns-last-acked-write", z3.Implies(z3.And(xfer, z3.Not(we), at_gs), lane(V(bus.dat_r)) == bk))
+    h.respond("resp.G3.no-unbounded-wait", rq, ack, 2)
+    h.cover("cover.read-back-in-burst", z3.And(xfer, z3.Not(we), at_gs, is_open, bk != h._ginit(h.ghosts["gv"])), depth=6)
+    return h
+
+INIT_RO = [0x11223344, 0xa5a5a5a5, 0x01020304, 0xdeadbeef]
 def cases(tier):
     cs = [Case("DownConverter(burst+err,32->16)", c_down_burst, 32, 16), Case("DownConverter(burst+err,64->32)", c_down_burst, 64, 32),
-          Case("DownConverter(burst+err,32->8)", c_down_burst, 32, 8)]
+          Case("DownConverter(burst+err,32->8)", c_down_burst, 32, 8), Case("Converter(burst+err,64->32)", c_down_burst, 64, 32, 6, True),
+          Case("UpConverter(mem+err,16->32)", c_up_mem, 16, 32), Case("UpConverter(mem+err,8->32)", c_up_mem, 8, 32), Case("UpConverter(mem+err,32->64)", c_up_mem, 32, 64),
+          Case("Converter(mem+err,8->16)", c_up_mem, 8, 16, 6, True),
+          Case("Remapper(err,origin)", c_remapper_err, "origin"), Case("Remapper(err,both)", c_remapper_err, "both"),
+          Case("SRAM(ro,Memory32x4,bus32)", c_sram_ro_mem, 4, 32, 32, INIT_RO), Case("SRAM(ro,Memory16x4,bus32)", c_sram_ro_mem, 4, 16, 32, [0x3344, 0xa5a5, 0x0304, 0xbeef]),
+          Case("SRAM(ro,Memory32x4,bus32,explicit)", c_sram_ro_mem, 4, 32, 32, INIT_RO, True),
+          Case("AG-link SRAM-burst(8x16)", c_link_sram, 8, 16), Case("AG-link SRAM-burst(8x8)", c_link_sram, 8, 8), Case("AG-link SRAM-burst(8x32)", c_link_sram, 8, 32)]
+    if tier == "thorough":
+        cs += [Case("DownConverter(burst+err,64->8)", c_down_burst, 64, 8, timeout=1800), Case("DownConverter(burst+err,128->16)", c_down_burst, 128, 16, timeout=1800),
+               Case("UpConverter(mem+err,8->64)", c_up_mem, 8, 64)]
     return cs
+
+ASSUMPTIONS = ["M3 (paper): if for an arbitrary but fixed byte address every read returns the last enabled write to it, the device is a flat byte memory",
+               "DownConverter/UpConverter (extension): the slave is an abstract byte memory of which only the tracked byte is modelled (ghost bk); it may insert any number of wait states, answer err, and raise the anticipated ack of a registered-feedback burst slave",
+               "DownConverter bursts: the clauses about the slave-side beat sequence (ens.s.burst-seq, ens.s.abandon-only-without-request) are conditional on the master's own beat following the B4 rule for linear incrementing bursts (next address, same we/bte, tag 010 or 111); the flat-memory clauses are not",
+               "DownConverter err: a slave beat terminated by err transfers nothing (the abstract memory is unchanged)"]
